@@ -328,6 +328,9 @@ def obs_equiv(cx, a, b, label):
             ok &= cx.prove_eq(ea[n][c], eb[n][c], label + ':delta[%s][%d]' % (n, c))
     for cn in sorted(set(sa.grads) | set(sb.grads)):
         ga, gb = sa.grads.get(cn), sb.grads.get(cn)
+        C = sa.covs.get(cn) if cn in sa.covs else sb.covs.get(cn)
+        if C is not None and not np.any(np.asarray(C, dtype=float)):
+            continue    # an external input with zero covariance (the library's placeholder for plain numbers) carries no fluctuation
         L = len(ga if ga is not None else gb)
         for k in range(L):
             ok &= cx.prove_eq(ga[k] if ga is not None else 0, gb[k] if gb is not None else 0, label + ':grad[%s][%d]' % (cn, k))
